@@ -521,3 +521,8 @@ def replay_args(v):
     if v["key"].startswith("c17.write."):
         return ("c17_partial_writes", [])
     return None
+
+
+# native scenarios that exercise, against the real build, the behaviours this spec decides: on a tree where the spec finds no
+# violation every one of them must NOT reproduce (a scenario that reproduces there means the spec misses something)
+SCENARIOS = [('c17_recv_id_while_read_pending', []), ('c17_partial_writes', [])]
